@@ -23,14 +23,14 @@ Section RangeTotal.
     intros s len Ha Hb Hle Hw.
     destruct (range_arithmetic_total t a b Ha Hb Hle) as (x & rs & re & _ & Ht & _).
     subst s len. unfold format_range. cbv zeta. rewrite Ht.
-    destruct (cover t 0 LMarkup None rs (N.min re (byte_len (into_text t)))) as [[[[node off] m] p]|] eqn:Ec; [|left; reflexivity].
+    destruct (cover t 0 (LMarkup, false) None rs (N.min re (byte_len (into_text t)))) as [[[[node off] [m bm]] p]|] eqn:Ec; [|left; reflexivity].
     destruct (erroneous node) eqn:Eerr; [left; reflexivity|]. right.
     destruct (cover_sound _ _ _ _ _ _ _ _ _ _ Ec) as (_ & _ & Hcov & Hsub).
     assert (Hwn : swfc node = true).
     { apply Hw; [|exact Eerr]. unfold range_node. cbv zeta. rewrite Ht, Ec. reflexivity. }
     rewrite <- swfc_annotate in Hwn.
     set (bundle := build swidth cfg (annotate node)).
-    set (cx := mk_ctx m (is_math_mode m && negb (kind_eqb (kind_of node) KEquation))).
+    set (cx := mk_ctx m bm).
     assert (Hm : exists d cnt,
                run_m (if kind_eqb (kind_of node) KMarkup then call bundle (RMarkup cx ScDocument)
                       else if is_expr node then
@@ -67,7 +67,7 @@ Lemma range_node_subtree t a b node : range_node t a b = Some node -> exists o, 
 Proof.
   unfold range_node. cbv zeta.
   destruct (trim_range _ _ _) as [[rs re]|]; [|discriminate].
-  destruct (cover t 0 LMarkup None rs _) as [[[[n off] m] p]|] eqn:Ec; [|discriminate].
+  destruct (cover t 0 (LMarkup, false) None rs _) as [[[[n off] m] p]|] eqn:Ec; [|discriminate].
   intros H. inversion H; subst. destruct (cover_sound _ _ _ _ _ _ _ _ _ _ Ec) as (_ & _ & _ & Hsub). eauto.
 Qed.
 
